@@ -22,6 +22,8 @@ J event_to_json(const Event& e) {
             o.set("hash_budget", J((unsigned long long)e.hash_budget));
         if (e.alloc_fail_at >= 0)
             o.set("alloc_fail_at", J(e.alloc_fail_at));
+        if (e.alloc_fail_from_end >= 0)
+            o.set("alloc_fail_from_end", e.alloc_fail_from_end);
         if (e.trace)
             o.set("trace", e.trace);
         break;
@@ -178,6 +180,7 @@ Event event_from_json(const J& o) {
     e.hash_seed = o.getu("hash_seed", 0);
     e.hash_budget = o.getu("hash_budget", 0);
     e.alloc_fail_at = o.geti("alloc_fail_at", -1);
+    e.alloc_fail_from_end = (int)o.geti("alloc_fail_from_end", -1);
     e.trace = (int)o.geti("trace", 0);
     e.sample_seed = o.getu("sample_seed", 0);
     e.max_tuples = (int)o.geti("max_tuples", 400);
